@@ -2,14 +2,14 @@
 """keep_mutant.py <prop> <k> <slug> <breaks-props comma list> "<needs>"  - copy a confirmed mutant into /verif/seeded/"""
 import json, os, shutil, sys
 prop, k, slug, breaks, needs = sys.argv[1:6]
-src = "/tmp/mut/%s/out/%s" % (prop, k)
+src = "%s/%s/out/%s" % (os.environ.get("MUTDIR", "/tmp/mut"), prop, k)
 dst = "/verif/seeded/%s-%s" % (prop, slug)
 os.makedirs(dst, exist_ok=True)
 for f in os.listdir(src):
     if f in ("patch.diff", "README.md", "BUILD") or f.startswith("demo.") or f.endswith((".c", ".cpp", ".sh", ".h")):
         shutil.copy(os.path.join(src, f), dst)
-ver = json.load(open("/tmp/mut/%s.%s.verify.json" % (prop, k)))
-ev = json.load(open("/tmp/mut/%s.%s.eval.json" % (prop, k)))
+ver = json.load(open("%s/%s.%s.verify.json" % (os.environ.get("MUTDIR", "/tmp/mut"), prop, k)))
+ev = json.load(open("%s/%s.%s.eval.json" % (os.environ.get("MUTDIR", "/tmp/mut"), prop, k)))
 meta = {
     "id": "%s-%s" % (prop, slug),
     "breaks_property": breaks.split(","),
